@@ -100,25 +100,22 @@ theorem goldShrink_pre {n : Nat} (f : Fin n → K → K) (s : GoldSt K n) (i : F
     simp only [hlt, not_lt.1 hlt, if_true, if_false]
     exact ⟨by linarith, hi, by linarith, hx, xb, by simp⟩
 
-/-- after the first full body the golden invariant holds with the width `w₁ ∈ {d₀ − a₀, b₀ − c}` of the first shrink -/
-theorem goldFirst_inv {n : Nat} (gr : K) (hg2 : gr < 1) (f : Fin n → K → K) (a0 b0 c : Vec K n) (i : Fin n) (xs : K)
-    (hab : a0 i < b0 i) (hu : Unimodal (f i) (a0 i) (b0 i) xs) (hc1 : a0 i < c i) (hc2 : c i < a0 i + gr * (b0 i - a0 i)) :
-    ∃ w1, (w1 = gr * (b0 i - a0 i) ∨ w1 = b0 i - c i) ∧
-      (let s' := goldShrink f (goldInit gr a0 b0 (some c))
-       a0 i ≤ s'.a i ∧ s'.b i ≤ b0 i ∧ s'.a i ≤ xs ∧ xs ≤ s'.b i ∧ s'.b i - s'.a i = w1) ∧
-      GoldInv gr (f i) (a0 i) (b0 i) xs w1
-        ((goldPoints gr (goldShrink f (goldInit gr a0 b0 (some c)))).a i) ((goldPoints gr (goldShrink f (goldInit gr a0 b0 (some c)))).b i)
-        ((goldPoints gr (goldShrink f (goldInit gr a0 b0 (some c)))).c i) ((goldPoints gr (goldShrink f (goldInit gr a0 b0 (some c)))).d i) := by
-  have hpos : 0 < b0 i - a0 i := sub_pos.2 hab
-  have hdb : a0 i + gr * (b0 i - a0 i) < b0 i := by nlinarith
-  obtain ⟨q1, q2, q3, q4, q5, q6⟩ := goldShrink_pre f (goldInit gr a0 b0 (some c)) i (a0 i) (b0 i) xs hu le_rfl le_rfl
-    (by simpa [goldInit] using hc1) (by simpa [goldInit] using hc2) (by simpa [goldInit] using hdb)
-    (by simpa [goldInit] using hu.mem_lo) (by simpa [goldInit] using hu.mem_hi)
-  obtain ⟨p1, p2, p3, p4, _⟩ := goldPoints_elem gr (goldShrink f (goldInit gr a0 b0 (some c))) i
-  refine ⟨(goldShrink f (goldInit gr a0 b0 (some c))).b i - (goldShrink f (goldInit gr a0 b0 (some c))).a i, ?_, ?_, ?_⟩
+/-- after the first full body, started from any interior points `a₀ < c < d < b₀`, the golden invariant holds with the
+    width `w₁ ∈ {d − a₀, b₀ − c}` of the first shrink -/
+theorem goldFirst_inv {n : Nat} (gr : K) (f : Fin n → K → K) (s0 : GoldSt K n) (i : Fin n) (xs : K)
+    (hu : Unimodal (f i) (s0.a i) (s0.b i) xs) (hac : s0.a i < s0.c i) (hcd : s0.c i < s0.d i) (hdb : s0.d i < s0.b i) :
+    ∃ w1, (w1 = s0.d i - s0.a i ∨ w1 = s0.b i - s0.c i) ∧
+      (let s' := goldShrink f s0
+       s0.a i ≤ s'.a i ∧ s'.b i ≤ s0.b i ∧ s'.a i ≤ xs ∧ xs ≤ s'.b i ∧ s'.b i - s'.a i = w1) ∧
+      GoldInv gr (f i) (s0.a i) (s0.b i) xs w1
+        ((goldPoints gr (goldShrink f s0)).a i) ((goldPoints gr (goldShrink f s0)).b i)
+        ((goldPoints gr (goldShrink f s0)).c i) ((goldPoints gr (goldShrink f s0)).d i) := by
+  obtain ⟨q1, q2, q3, q4, q5, q6⟩ := goldShrink_pre f s0 i (s0.a i) (s0.b i) xs hu le_rfl le_rfl hac hcd hdb hu.mem_lo hu.mem_hi
+  obtain ⟨p1, p2, p3, p4, _⟩ := goldPoints_elem gr (goldShrink f s0) i
+  refine ⟨(goldShrink f s0).b i - (goldShrink f s0).a i, ?_, ?_, ?_⟩
   · rcases q6 with ⟨e1, e2⟩ | ⟨e1, e2⟩
-    · left; rw [e1, e2]; simp [goldInit]
-    · right; rw [e1, e2]; simp [goldInit]
+    · left; rw [e1, e2]
+    · right; rw [e1, e2]
   · exact ⟨q1, q2, q4, q5, rfl⟩
   · rw [p1, p2, p3, p4]
     exact ⟨q1, q2, q3, rfl, rfl, q4, q5, rfl⟩
@@ -137,6 +134,49 @@ theorem gold_iterate_from {n : Nat} (gr : K) (hg1 : 1 / 2 < gr) (hg2 : gr < 1) (
     rw [pow_succ, mul_comm (gr ^ k) gr, mul_assoc]
     exact this
 
+/-- **the golden loop from any ordered interior points** `a₀ < c < d < b₀` (lane `i`), all iteration counts -/
+theorem goldLoop_pre_spec {n : Nat} (gr : K) (hg1 : 1 / 2 < gr) (hg2 : gr < 1) (f : Fin n → K → K) (s0 : GoldSt K n)
+    (xtol : K) (maxiter : Nat) (hmax : 0 < maxiter) (i : Fin n) (xs : K)
+    (hu : Unimodal (f i) (s0.a i) (s0.b i) xs) (hac : s0.a i < s0.c i) (hcd : s0.c i < s0.d i) (hdb : s0.d i < s0.b i) :
+    let s := goldLoop gr f xtol maxiter s0
+    let x := goldPick f s
+    ∃ k w1, k < maxiter ∧ (w1 = s0.d i - s0.a i ∨ w1 = s0.b i - s0.c i) ∧
+      s0.a i ≤ s.a i ∧ s.a i ≤ xs ∧ xs ≤ s.b i ∧ s.b i ≤ s0.b i ∧
+      s.b i - s.a i = gr ^ k * w1 ∧
+      (x i = s.a i ∨ x i = s.b i) ∧ |x i - xs| ≤ gr ^ k * w1 ∧
+      (k + 1 = maxiter ∨ (s.xerr ≤ xtol ∧ |x i - xs| ≤ xtol)) := by
+  intro s x
+  obtain ⟨k, hk, ea, eb, ex, hexit⟩ := goldLoop_iterate gr f xtol maxiter s0 hmax
+  obtain ⟨w1, hw1, hfirst, hinv1⟩ := goldFirst_inv gr f s0 i xs hu hac hcd hdb
+  have hA : s.a i = (goldShrink f ((fun s => goldPoints gr (goldShrink f s))^[k] s0)).a i := congrFun ea i
+  have hB : s.b i = (goldShrink f ((fun s => goldPoints gr (goldShrink f s))^[k] s0)).b i := congrFun eb i
+  have hfin : s0.a i ≤ s.a i ∧ s.b i ≤ s0.b i ∧ s.a i ≤ xs ∧ xs ≤ s.b i ∧ s.b i - s.a i = gr ^ k * w1 := by
+    rw [hA, hB]
+    cases k with
+    | zero =>
+      obtain ⟨r1, r2, r3, r4, r5⟩ := hfirst
+      simpa using ⟨r1, r2, r3, r4, r5⟩
+    | succ k =>
+      rw [Function.iterate_succ_apply]
+      have hI := gold_iterate_from gr hg1 hg2 f _ i (s0.a i) (s0.b i) xs w1 hu hinv1 k
+      obtain ⟨q1, q2, _, _, _, q6, q7, q8⟩ := goldShrink_inv gr hg1 hg2 f _ i (s0.a i) (s0.b i) xs _ hu hI
+      refine ⟨q1, q2, q6, q7, ?_⟩
+      rw [q8, pow_succ]; ring
+  obtain ⟨f1, f2, f3, f4, f5⟩ := hfin
+  have hpick : x i = s.a i ∨ x i = s.b i := goldPick_mem f s i
+  have hdist : |x i - xs| ≤ s.b i - s.a i := by
+    rcases hpick with e | e <;> rw [e, abs_le] <;> constructor <;> linarith
+  refine ⟨k, w1, hk, hw1, f1, f3, f4, f2, f5, hpick, by rw [← f5]; exact hdist, ?_⟩
+  rcases hexit with h | h
+  · exact Or.inl h
+  · right
+    refine ⟨h, le_trans hdist ?_⟩
+    have hxerr : |s.b i - s.a i| ≤ s.xerr := by
+      have e4 := (goldShrink_elem f ((fun s => goldPoints gr (goldShrink f s))^[k] s0) i).2.2.2
+      rw [show s.xerr = _ from ex, e4, hA, hB]
+      exact le_vmaxAbs (fun j => (goldShrink f _).b j - (goldShrink f _).a j) i
+    exact le_trans (le_trans (le_abs_self _) hxerr) h
+
 /-- **`golden` with `c` given, `a₀ < c < d₀ = a₀ + gr (b₀ − a₀)`** — all iteration counts: there are `k < maxiter` and
     `w₁ ∈ {gr (b₀ − a₀), b₀ − c}` with final bracket inside `[a₀, b₀]`, containing the minimiser, of width `gr^k w₁`;
     the returned end point is within that of the minimiser, and within `xtol` when the loop stopped early. -/
@@ -150,38 +190,65 @@ theorem golden_c_spec {n : Nat} (gr : K) (hg1 : 1 / 2 < gr) (hg2 : gr < 1) (f : 
       (out.1 i = out.2.a i ∨ out.1 i = out.2.b i) ∧ |out.1 i - xs| ≤ gr ^ k * w1 ∧
       (k + 1 = maxiter ∨ (out.2.xerr ≤ xtol ∧ |out.1 i - xs| ≤ xtol)) := by
   intro out
-  obtain ⟨k, hk, ea, eb, ex, hexit⟩ := goldLoop_iterate gr f xtol maxiter (goldInit gr a0 b0 (some c)) hmax
-  obtain ⟨w1, hw1, hfirst, hinv1⟩ := goldFirst_inv gr hg2 f a0 b0 c i xs hab hu hc1 hc2
-  have hA : out.2.a i = (goldShrink f ((fun s => goldPoints gr (goldShrink f s))^[k] (goldInit gr a0 b0 (some c)))).a i :=
-    congrFun ea i
-  have hB : out.2.b i = (goldShrink f ((fun s => goldPoints gr (goldShrink f s))^[k] (goldInit gr a0 b0 (some c)))).b i :=
-    congrFun eb i
-  -- the final bracket, in both cases k = 0 / k ≥ 1
-  have hfin : a0 i ≤ out.2.a i ∧ out.2.b i ≤ b0 i ∧ out.2.a i ≤ xs ∧ xs ≤ out.2.b i ∧ out.2.b i - out.2.a i = gr ^ k * w1 := by
-    rw [hA, hB]
-    cases k with
-    | zero =>
-      obtain ⟨r1, r2, r3, r4, r5⟩ := hfirst
-      simpa using ⟨r1, r2, r3, r4, r5⟩
-    | succ k =>
-      rw [Function.iterate_succ_apply]
-      have hI := gold_iterate_from gr hg1 hg2 f _ i (a0 i) (b0 i) xs w1 hu hinv1 k
-      obtain ⟨q1, q2, _, _, _, q6, q7, q8⟩ := goldShrink_inv gr hg1 hg2 f _ i (a0 i) (b0 i) xs _ hu hI
-      refine ⟨q1, q2, q6, q7, ?_⟩
-      rw [q8, pow_succ]; ring
-  obtain ⟨f1, f2, f3, f4, f5⟩ := hfin
-  have hpick : out.1 i = out.2.a i ∨ out.1 i = out.2.b i := goldPick_mem f out.2 i
-  have hdist : |out.1 i - xs| ≤ out.2.b i - out.2.a i := by
-    rcases hpick with e | e <;> rw [e, abs_le] <;> constructor <;> linarith
-  refine ⟨k, w1, hk, hw1, f1, f3, f4, f2, f5, hpick, by rw [← f5]; exact hdist, ?_⟩
-  rcases hexit with h | h
-  · exact Or.inl h
-  · right
-    refine ⟨h, le_trans hdist ?_⟩
-    have hxerr : |out.2.b i - out.2.a i| ≤ out.2.xerr := by
-      have e4 := (goldShrink_elem f ((fun s => goldPoints gr (goldShrink f s))^[k] (goldInit gr a0 b0 (some c))) i).2.2.2
-      rw [show out.2.xerr = _ from ex, e4, hA, hB]
-      exact le_vmaxAbs (fun j => (goldShrink f _).b j - (goldShrink f _).a j) i
-    exact le_trans (le_trans (le_abs_self _) hxerr) h
+  have hpos : 0 < b0 i - a0 i := sub_pos.2 hab
+  have hdb : a0 i + gr * (b0 i - a0 i) < b0 i := by nlinarith
+  obtain ⟨k, w1, hk, hw, r⟩ := goldLoop_pre_spec gr hg1 hg2 f (goldInit gr a0 b0 (some c)) xtol maxiter hmax i xs
+    (by simpa [goldInit] using hu) (by simpa [goldInit] using hc1) (by simpa [goldInit] using hc2) (by simpa [goldInit] using hdb)
+  refine ⟨k, w1, hk, ?_, r⟩
+  rcases hw with h | h
+  · left; rw [h]; simp [goldInit]
+  · right; rw [h]; simp [goldInit]
+
+/-- **`golden` after `fixes/golden-c-beyond-d.patch`** (`goldenSorted`): for *every* supplied `c` strictly inside
+    `(a₀, b₀)` — the documented requirement — the guarantees of `C14_golden` hold: final bracket inside `[a₀, b₀]`, containing
+    the minimiser, of width `gr^k w₁` with `w₁ < b₀ − a₀`; returned point within that of the minimiser (within `xtol` when
+    stopped early). -/
+theorem goldenSorted_spec {n : Nat} (gr : K) (hg1 : 1 / 2 < gr) (hg2 : gr < 1) (f : Fin n → K → K) (a0 b0 c : Vec K n)
+    (xtol : K) (maxiter : Nat) (hmax : 0 < maxiter) (i : Fin n) (xs : K) (hab : a0 i < b0 i)
+    (hu : Unimodal (f i) (a0 i) (b0 i) xs) (hc1 : a0 i < c i) (hc2 : c i < b0 i) :
+    let out := goldenSorted gr f a0 b0 (some c) xtol maxiter
+    ∃ k w1, k < maxiter ∧ 0 < w1 ∧ w1 < b0 i - a0 i ∧
+      a0 i ≤ out.2.a i ∧ out.2.a i ≤ xs ∧ xs ≤ out.2.b i ∧ out.2.b i ≤ b0 i ∧
+      out.2.b i - out.2.a i = gr ^ k * w1 ∧
+      (out.1 i = out.2.a i ∨ out.1 i = out.2.b i) ∧ |out.1 i - xs| ≤ gr ^ k * w1 ∧
+      (k + 1 = maxiter ∨ (out.2.xerr ≤ xtol ∧ |out.1 i - xs| ≤ xtol)) := by
+  intro out
+  have hpos : 0 < b0 i - a0 i := sub_pos.2 hab
+  have hg0 : 0 < gr := by linarith [show (0 : K) < 1 / 2 by norm_num]
+  have hd0a : a0 i < a0 i + gr * (b0 i - a0 i) := by nlinarith
+  have hd0b : a0 i + gr * (b0 i - a0 i) < b0 i := by nlinarith
+  have hc0 : b0 i - gr * (b0 i - a0 i) < a0 i + gr * (b0 i - a0 i) := by nlinarith
+  have hc0a : a0 i < b0 i - gr * (b0 i - a0 i) := by nlinarith
+  -- the ordered interior points
+  have hpre : (goldInitSorted gr a0 b0 (some c)).a i = a0 i ∧ (goldInitSorted gr a0 b0 (some c)).b i = b0 i ∧
+      a0 i < (goldInitSorted gr a0 b0 (some c)).c i ∧ (goldInitSorted gr a0 b0 (some c)).c i < (goldInitSorted gr a0 b0 (some c)).d i ∧
+      (goldInitSorted gr a0 b0 (some c)).d i < b0 i := by
+    refine ⟨rfl, rfl, ?_⟩
+    by_cases h1 : c i < a0 i + gr * (b0 i - a0 i)
+    · have ec : (goldInitSorted gr a0 b0 (some c)).c i = c i := by simp [goldInitSorted, h1]
+      have ed : (goldInitSorted gr a0 b0 (some c)).d i = a0 i + gr * (b0 i - a0 i) := by simp [goldInitSorted, h1]
+      rw [ec, ed]
+      exact ⟨hc1, h1, hd0b⟩
+    · by_cases h2 : a0 i + gr * (b0 i - a0 i) < c i
+      · have ec : (goldInitSorted gr a0 b0 (some c)).c i = a0 i + gr * (b0 i - a0 i) := by simp [goldInitSorted, h1, h2]
+        have ed : (goldInitSorted gr a0 b0 (some c)).d i = c i := by simp [goldInitSorted, h1, h2]
+        rw [ec, ed]
+        exact ⟨hd0a, h2, hc2⟩
+      · have ec : (goldInitSorted gr a0 b0 (some c)).c i = b0 i - gr * (b0 i - a0 i) := by simp [goldInitSorted, h1, h2]
+        have ed : (goldInitSorted gr a0 b0 (some c)).d i = a0 i + gr * (b0 i - a0 i) := by simp [goldInitSorted, h1, h2]
+        rw [ec, ed]
+        exact ⟨hc0a, hc0, hd0b⟩
+  obtain ⟨ea, eb, p1, p2, p3⟩ := hpre
+  obtain ⟨k, w1, hk, hw, r1, r2, r3, r4, r5, r6, r7, r8⟩ := goldLoop_pre_spec gr hg1 hg2 f (goldInitSorted gr a0 b0 (some c)) xtol maxiter hmax i xs
+    (by rw [ea, eb]; exact hu) (by rw [ea]; exact p1) p2 (by rw [eb]; exact p3)
+  rw [ea] at r1
+  rw [eb] at r4
+  refine ⟨k, w1, hk, ?_, ?_, r1, r2, r3, r4, r5, r6, r7, r8⟩
+  · rcases hw with h | h
+    · rw [h, ea]; linarith
+    · rw [h, eb]; linarith
+  · rcases hw with h | h
+    · rw [h, ea]; linarith
+    · rw [h, eb]; linarith
 
 end Scico.LinSolve
